@@ -336,11 +336,19 @@ pub fn scenarios(prop: &str, tier: &str) -> Vec<Arc<dyn Scenario>> {
                     OracleKind::C02,
                 ));
                 v.push(std(
-                    "C02-seeds1-212-special",
+                    "C02-seeds1-112-special",
+                    TreeCfg::small(keys_ab()),
+                    a.clone(),
+                    bs(1, 1, 2, 0, 1),
+                    crate::scen::seeds_with_deep(1),
+                    OracleKind::C02,
+                ));
+                v.push(std(
+                    "C02-std-212-special",
                     TreeCfg::small(keys_ab()),
                     a.clone(),
                     bs(2, 1, 2, 0, 1),
-                    seeds_upto(1),
+                    vec![vec![]],
                     OracleKind::C02,
                 ));
                 // key-value separated tree: its own get / scan entry points resolve the snapshot's version
@@ -893,7 +901,7 @@ pub fn scenarios(prop: &str, tier: &str) -> Vec<Arc<dyn Scenario>> {
                     TreeCfg::small(keys_ab()),
                     a.clone(),
                     b(2, 1, 1, 1),
-                    seeds_upto(1),
+                    crate::scen::seeds_with_deep(1),
                     OracleKind::C14,
                 ));
             } else {
